@@ -8,6 +8,7 @@ import warnings
 
 from mc import recs, refcodec
 from mc.bfs import bfs
+from mc.faults import drain
 from mc.obs import obs_list
 from mc.recs import rs
 from mc.report import Run, jhash
@@ -65,6 +66,66 @@ def json_events(text):
     return ev
 
 
+def _descs(spec, acc=None):
+    """All (name, fields) descriptors contained in a record spec, nested ones included."""
+    acc = [] if acc is None else acc
+    if "group" in spec:
+        for m in spec["members"]:
+            _descs(m, acc)
+        return acc
+    acc.append((spec["name"], tuple(tuple(f) for f in spec["fields"])))
+    for v in spec.get("values", []):
+        if isinstance(v, dict):
+            _descs(v, acc)
+        elif isinstance(v, list):
+            for x in v:
+                if isinstance(x, dict):
+                    _descs(x, acc)
+    return acc
+
+
+def conflict_class(hist):
+    """How the last event's descriptors relate to what the same writer saw before: ident-coincide / same-name / fresh / repeat."""
+    w, k = hist[-1]
+    mine = set(_descs(KINDS[k]))
+    earlier = set()
+    for ww, kk in hist[:-1]:
+        if ww == w:
+            earlier |= set(_descs(KINDS[kk]))
+    cls = set()
+    for name, fields in mine:
+        for n2, f2 in earlier:
+            if (name, fields) == (n2, f2):
+                continue
+            if n2 == name and refcodec.desc_hash(name, fields) == refcodec.desc_hash(n2, f2):
+                cls.add("ident-coincide")
+            elif n2 == name:
+                cls.add("same-name")
+    if not cls:
+        cls.add("repeat" if mine <= earlier else "fresh")
+    return "+".join(sorted(cls))
+
+
+def ref_tolerant(data):
+    """Decode frame by frame with the reference decoder -> one entry per REC/GROUPED frame: obs, or an error string."""
+    out = []
+    dec = refcodec.Decoder()
+    try:
+        frames = refcodec.split_frames(data)
+    except refcodec.FormatError as e:
+        return [str(e)]
+    for _, _, payload in frames:
+        n = len(dec.events)
+        try:
+            o = dec.feed_payload(payload)
+            if o is not None:
+                out.append(o)
+        except (refcodec.FormatError, ValueError, TypeError, KeyError, IndexError) as e:
+            if len(dec.events) == n:
+                out.append("%s: %s" % (type(e).__name__, e))
+    return out
+
+
 def step(hist):
     conf = CONF
     if conf["packer"] == "binary":
@@ -107,32 +168,42 @@ def step_binary(hist, conf):
     if hist:
         w, k = hist[-1]
         expected = obs_list(written[w])
-        sig_kinds = "%s after {%s}" % (k, ",".join(sorted({kk for ww, kk in hist[:-1] if ww == w})))
-        # (1) reference decoder: frame order + identifier -> descriptor
-        try:
-            got, dec = refcodec.decode_stream(datas[w])
-            d = recs.list_diff(expected, got)
-            if d:
-                viol.append(("C03:binary:ref-decode:%s:%s" % (sig_kinds, d[3]), case, {"index": d[0], "where": d[1], "diff": d[3],
-                                                                                  "frames": [e[0] if e[0] != "DESC" else "DESC " + e[1] for e in dec.events]}))
-                out = "ref-diff"
-            else:
-                out = "ok"
-        except refcodec.FormatError as e:
-            viol.append(("C03:binary:ref-format:%s" % sig_kinds, case, {"error": str(e)}))
+        sig_kinds = "%s:%s" % (k, conflict_class(hist))
+        # (1) reference decoder, frame by frame (tolerant: an earlier bad record was reported on its own transition)
+        got = ref_tolerant(datas[w])
+        out = "ok"
+        if len(got) != len(expected):
+            viol.append(("C03:binary:ref-count:%s" % sig_kinds, case, {"records_on_wire": len(got), "written": len(expected)}))
+            out = "ref-count"
+        elif isinstance(got[-1], str):
+            viol.append(("C03:binary:ref-format:%s" % sig_kinds, case, {"error": got[-1]}))
             out = "ref-format"
-        # (2) real reader end to end
-        try:
-            with warnings.catch_warnings():
-                warnings.simplefilter("ignore")
-                real = obs_list(list(RecordStreamReader(io.BytesIO(datas[w]))))
-            d = recs.list_diff(expected, real)
+        else:
+            d = recs.locate(expected[-1], got[-1])
             if d:
-                viol.append(("C03:binary:reader:%s:%s" % (sig_kinds, d[3]), case, {"index": d[0], "where": d[1], "diff": d[3]}))
-                out += "/reader-diff"
-        except Exception as e:  # noqa: BLE001
-            viol.append(("C03:binary:reader-raises:%s:%s" % (sig_kinds, type(e).__name__), case, {"error": repr(e)[:300]}))
+                viol.append(("C03:binary:ref-decode:%s:%s" % (sig_kinds, d[2]), case, {"where": d[0], "diff": d[2],
+                                                                                  "written": expected[-1], "decoded_as": got[-1]}))
+                out = "ref-diff"
+        # (2) real reader end to end (judges the record of this event; masked if an earlier record already fails)
+        with warnings.catch_warnings():
+            warnings.simplefilter("ignore")
+            try:
+                items, exc = drain(RecordStreamReader(io.BytesIO(datas[w])))
+            except Exception as e:  # noqa: BLE001
+                items, exc = [], e
+        real = obs_list(items)
+        if exc is not None and len(real) < len(expected) - 1:
+            out += "/reader-masked"
+        elif exc is not None:
+            viol.append(("C03:binary:reader-raises:%s:%s" % (sig_kinds, type(exc).__name__), case, {"error": repr(exc)[:300]}))
             out += "/reader-raise"
+        elif len(real) != len(expected):
+            viol.append(("C03:binary:reader-count:%s" % sig_kinds, case, {"read": len(real), "written": len(expected)}))
+        else:
+            d = recs.locate(expected[-1], real[-1])
+            if d:
+                viol.append(("C03:binary:reader:%s:%s" % (sig_kinds, d[2]), case, {"where": d[0], "diff": d[2]}))
+                out += "/reader-diff"
         # (3) independence
         for o in range(m):
             if o != w and before is not None and datas[o] != before[o]:
@@ -169,12 +240,15 @@ def step_json(hist, conf):
         rreg = {}
         for e in json_events(datas[wi]):
             if e[0] == "DESC":
-                rreg.setdefault(repr(e[1]), [e[2], [list(f) for f in e[3]]])  # the JSON reader keeps the first
+                cur = rreg.setdefault(repr(e[1]), [None, None])  # first and last announcement per identifier
+                if cur[0] is None:
+                    cur[0] = [e[2], [list(f) for f in e[3]]]
+                cur[1] = [e[2], [list(f) for f in e[3]]]
         canon.append([reg_canon(writers[wi].packer.descriptors), sorted(rreg.items())])
     if hist:
         w, k = hist[-1]
         expected = obs_list(written[w])
-        sig_kinds = "%s after {%s}" % (k, ",".join(sorted({kk for ww, kk in hist[:-1] if ww == w})))
+        sig_kinds = "%s:%s" % (k, conflict_class(hist))
         # (1) independent line-level check: every REC's identifier was announced before it with the right descriptor.
         #     top-level records only (nested ones are covered by (2)); last announcement before the record counts.
         reg = {}
@@ -191,26 +265,35 @@ def step_json(hist, conf):
                     break
                 want = (wr._desc.name, [tuple(t) for t in wr._desc.get_field_tuples()])
                 have = reg.get(e[1])
-                if have is None or (have[0], [tuple(t) for t in have[1]]) != want:
+                if recno == len(written[w]) and (have is None or (have[0], [tuple(t) for t in have[1]]) != want):
                     viol.append(("C03:json:line-order:%s" % sig_kinds, case, {"record": recno - 1, "announced": have, "created_with": want}))
                     out = "line-diff"
                     break
-        # (2) real reader
+        # (2) real reader (judges the record of this event; masked if an earlier record already fails)
         _n[0] += 1
         p = os.path.join(os.environ["VERIF_SCRATCH"], "c03-%d-%d.json" % (os.getpid(), _n[0]))
         with open(p, "w") as f:
             f.write(datas[w])
         try:
-            rd = JsonfileReader(p)
-            real = obs_list(list(rd))
-            rd.close()
-            d = recs.list_diff(expected, real)
-            if d:
-                viol.append(("C03:json:reader:%s:%s" % (sig_kinds, d[3]), case, {"index": d[0], "where": d[1], "diff": d[3]}))
-                out += "/reader-diff"
-        except Exception as e:  # noqa: BLE001
-            viol.append(("C03:json:reader-raises:%s:%s" % (sig_kinds, type(e).__name__), case, {"error": repr(e)[:300]}))
-            out += "/reader-raise"
+            try:
+                rd = JsonfileReader(p)
+                items, exc = drain(rd)
+                rd.close()
+            except Exception as e:  # noqa: BLE001
+                items, exc = [], e
+            real = obs_list(items)
+            if exc is not None and len(real) < len(expected) - 1:
+                out += "/reader-masked"
+            elif exc is not None:
+                viol.append(("C03:json:reader-raises:%s:%s" % (sig_kinds, type(exc).__name__), case, {"error": repr(exc)[:300]}))
+                out += "/reader-raise"
+            elif len(real) != len(expected):
+                viol.append(("C03:json:reader-count:%s" % sig_kinds, case, {"read": len(real), "written": len(expected)}))
+            else:
+                d = recs.locate(expected[-1], real[-1])
+                if d:
+                    viol.append(("C03:json:reader:%s:%s" % (sig_kinds, d[2]), case, {"where": d[0], "diff": d[2]}))
+                    out += "/reader-diff"
         finally:
             os.unlink(p)
         for o in range(m):
@@ -237,9 +320,9 @@ def main(tier, seed, workers=None):
     thorough = tier == "thorough"
     plans = [
         ("binary", 1, list(KINDS), 12),
-        ("binary", 2, ["A", "A2", "B", "N_X", "G_Y"] if not thorough else ["A", "A2", "B", "C", "N_A", "N_X", "G", "G_Y"], 10 if thorough else 8),
+        ("binary", 2, ["A", "A2", "B", "N_X", "G_Y"] if not thorough else ["A", "A2", "B", "C", "N_A", "N_X", "G", "G_Y"], 14),
         ("json", 1, kinds_for("json", KINDS), 12),
-        ("json", 2, ["A", "A2", "B", "N_X"] if not thorough else kinds_for("json", ["A", "A2", "B", "C", "N_A", "N_X", "N_B"]), 10 if thorough else 8),
+        ("json", 2, ["A", "A2", "B", "N_X"] if not thorough else kinds_for("json", ["A", "A2", "B", "C", "N_A", "N_X", "N_B"]), 14),
     ]
     if thorough:
         plans.append(("binary", 3, ["A", "B", "G_Y"], 9))
